@@ -70,7 +70,7 @@ def cpio_newc(entries):
     return out + one(b"TRAILER!!!", 0, b"")
 
 
-def files_package(dirnames, files):
+def files_package(dirnames, files, declared_sizes=None):
     """complete package bytes: dirnames = [bytes], files = [(dirindex, basename, raw mode, linkto, content)]"""
     import struct
     T = {"BASENAMES": 1117, "DIRINDEXES": 1116, "DIRNAMES": 1118, "FILEMODES": 1030, "FILEUSERNAME": 1039, "FILEGROUPNAME": 1040, "FILEDIGESTS": 1035,
@@ -84,7 +84,11 @@ def files_package(dirnames, files):
         st += data
     n = len(files)
     if n:
-        add(T["FILESIZES"], "Int32", b"".join(struct.pack(">I", len(f[4])) for f in files), n, 4)
+        sizes = declared_sizes if declared_sizes is not None else [len(f[4]) for f in files]
+        if any(x > 0xffffffff for x in sizes):
+            add(5008, "Int64", b"".join(struct.pack(">Q", x) for x in sizes), n, 8)        # RPMTAG_LONGFILESIZES
+        else:
+            add(T["FILESIZES"], "Int32", b"".join(struct.pack(">I", x) for x in sizes), n, 4)
         add(T["FILEMODES"], "Int16", b"".join(struct.pack(">H", f[2] & 0xffff) for f in files), n, 2)
         add(T["FILEMTIMES"], "Int32", b"".join(struct.pack(">I", 0) for _ in range(n)), n, 4)
         add(T["FILEDIGESTS"], "StringArray", b"\0" * n, n)
